@@ -22,6 +22,7 @@ struct Case {
   unsigned gen_seed = 1;
   double testsize = 0.2;
   int conc_threads = 2;
+  int kinit = 3;   // start-centroid method of KMeansRandomGroupsCV
 };
 
 struct Out {
@@ -40,7 +41,7 @@ static Case case_from_plan(const Plan &p) {
   Case c;
   c.learner = (int)p.geti("learner"); c.nlv = (int)p.geti("nlv", 1); c.xs = (int)p.geti("xscaling"); c.ys = (int)p.geti("yscaling");
   c.routine = (int)p.geti("routine"); c.groups = (int)p.geti("groups", 3); c.iters = (int)p.geti("iterations", 1);
-  c.nthreads = (int)p.geti("nthreads", 1); c.nproc = (int)p.geti("machine.nproc", 1); c.noise = (int)p.geti("noise", 0);
+  c.nthreads = (int)p.geti("nthreads", 1); c.nproc = (int)p.geti("machine.nproc", 1); c.noise = (int)p.geti("noise", 0); c.kinit = (int)p.geti("kinit", 3);
   c.gen_seed = (unsigned)p.getu("gen_seed", 1); c.testsize = p.getd("testsize", 0.2); c.conc_threads = (int)p.geti("conc_threads", 2);
   int n = (int)p.geti("objects"), px = (int)p.geti("xcols"), ny = (int)p.geti("ycols", 1);
   Prng dr(p.getu("data.seed"), PURPOSE_WORKLOAD);
@@ -74,14 +75,54 @@ static Case case_from_plan(const Plan &p) {
 // ---- calling the library -----------------------------------------------------------------------
 struct Call { const Case *c; Out *o; int nthreads; bool noise; const Mat *Yover; bool prior = false; };
 
+// "whatever other library calls run concurrently": another user thread working on its OWN data.  What it does is one of several
+// profiles (chosen by the plan): random-number calls, container work (sorting by another column, copies), distance / selection
+// routines, k-means, a PCA fit, an MLR or PLS fit.  Nothing it touches is shared with the routine under test, so any interference
+// is state the library keeps behind the caller's back.
 static void *noise_client(void *a) {
   const Case *c = (const Case *)a;
-  matrix *m; NewMatrix(&m, 3, 3);
-  for (int i = 0; i < 6 + (int)(c->gen_seed % 5); i++) {
-    srand_(1000 + i);
-    (void)randInt(0, 50);
-    (void)randDouble(0, 1);
-    if (i % 2) MatrixInitRandomInt(m, 0, 10); else MatrixInitRandomFloat(m, 0, 1);
+  int profile = c->noise > 0 ? c->noise - 1 : 0;
+  Prng r(c->gen_seed * 2654435761u + 17, PURPOSE_WORKLOAD);
+  matrix *m; NewMatrix(&m, 7, 3);
+  for (size_t i = 0; i < m->row; i++) for (size_t j = 0; j < m->col; j++) m->data[i][j] = r.uniform(-5, 5) + (double)j;
+  switch (profile) {
+    default:
+    case 0: {
+      matrix *q; NewMatrix(&q, 3, 3);
+      for (int i = 0; i < 6 + (int)(c->gen_seed % 5); i++) {
+        srand_(1000 + i);
+        (void)randInt(0, 50);
+        (void)randDouble(0, 1);
+        if (i % 2) MatrixInitRandomInt(q, 0, 10); else MatrixInitRandomFloat(q, 0, 1);
+      }
+      DelMatrix(&q);
+      break; }
+    case 1: {  // container work
+      for (int i = 0; i < 3; i++) { MatrixSort(m, 1 + (size_t)(i % 2)); MatrixReverseSort(m, 2); }
+      matrix *cp; initMatrix(&cp); MatrixCopy(m, &cp); MatrixDeleteRowAt(cp, 1); MatrixDeleteColAt(cp, 0); DelMatrix(&cp);
+      dvector *v; NewDVector(&v, 9); for (size_t i = 0; i < v->size; i++) v->data[i] = r.uniform(-1, 1); DVectorSort(v); DelDVector(&v);
+      dvector *col = getMatrixColumn(m, 1); DelDVector(&col);
+      break; }
+    case 2: {  // distances and selections
+      matrix *d; initMatrix(&d); CalculateDistance(m, m, d, 2, (enum cmethod)(c->gen_seed % 4)); DelMatrix(&d);
+      uivector *sel; initUIVector(&sel); MDC(m, 3, (int)(c->gen_seed % 3), sel, 1); DelUIVector(&sel);
+      initUIVector(&sel); MaxDis(m, 3, (int)((c->gen_seed / 3) % 3), sel, 2); DelUIVector(&sel);
+      break; }
+    case 3: {  // k-means
+      uivector *lab; initUIVector(&lab); matrix *cen; initMatrix(&cen);
+      srand_(4242); KMeans(m, 2, (int)(c->gen_seed % 4), lab, cen, 1 + (size_t)(c->gen_seed % 2));
+      DelUIVector(&lab); DelMatrix(&cen);
+      break; }
+    case 4: {  // PCA fit and projection
+      PCAMODEL *pm; NewPCAModel(&pm); PCA(m, 1, 2, pm, NULL);
+      matrix *ps; initMatrix(&ps); PCAScorePredictor(m, pm, 2, ps); DelMatrix(&ps); DelPCAModel(&pm);
+      break; }
+    case 5: {  // regression fits
+      matrix *y; NewMatrix(&y, m->row, 1); for (size_t i = 0; i < y->row; i++) y->data[i][0] = m->data[i][0] * 2 - m->data[i][1] + r.uniform(-0.1, 0.1);
+      if (c->gen_seed % 2) { MLRMODEL *mm; NewMLRModel(&mm); MLR(m, y, mm, NULL); DelMLRModel(&mm); }
+      else { PLSMODEL *pl; NewPLSModel(&pl); PLS(m, y, 2, 1, 0, pl, NULL); DelPLSModel(&pl); }
+      DelMatrix(&y);
+      break; }
   }
   DelMatrix(&m);
   return nullptr;
@@ -168,7 +209,7 @@ static void call_routine(void *arg) {
     }
     case R_KMEANS_CV: {
       dvector *ss; initDVector(&ss);
-      KMeansRandomGroupsCV(x, 3, 3, (size_t)c.groups, (size_t)c.iters, ss, (size_t)k.nthreads);
+      KMeansRandomGroupsCV(x, 3, c.kinit, (size_t)c.groups, (size_t)c.iters, ss, (size_t)k.nthreads);
       o.vec = from_dvector(ss);
       DelDVector(&ss);
       break;
@@ -294,7 +335,8 @@ struct HCv : Harness {
     if (routine == R_SPLIT_CONC) { nth = (int)wr.range(2, 4); p.seti("conc_threads", nth); groups = (int)wr.range(1, n); iters = (int)wr.range(1, 12); }
     if (routine == R_PCARANK) nth = (int)p.geti("machine.nproc");
     p.seti("groups", groups); p.seti("iterations", iters); p.seti("nthreads", nth);
-    p.seti("noise", c06 && wr.chance(0.35) ? 1 : 0);
+    if (routine == R_KMEANS_CV) p.seti("kinit", (int)wr.below(4));
+    p.seti("noise", c06 && wr.chance(0.4) ? 1 + (int)wr.below(6) : 0);   // 0 none, 1..6 the profile of the concurrent caller
     p.seti("prior_call", c06 && routine != R_YSCR_BOOT && wr.chance(0.3) ? 1 : 0);
     p.setu("gen_seed", 1 + wr.below(1000000));
     p.setd("testsize", wr.chance(0.2) ? 1.5 : wr.uniform(0.05, 0.6));
@@ -371,7 +413,7 @@ struct HCv : Harness {
     o.sched_sig = rb.sr.sched_sig;
     o.nontrivial = rb.sr.max_live >= 3 || rc.sr.max_live >= 3;
     o.counters["threads." + std::to_string(c.nthreads)]++;
-    if (c.noise) o.counters["probe.noise_client_ran"]++;
+    if (c.noise) { o.counters["probe.noise_client_ran"]++; static const char *pn[] = {"rng", "containers", "distances+selection", "kmeans", "pca", "regression"}; o.counters[std::string("noise.") + pn[(c.noise - 1) % 6]]++; }
     if (p.geti("large", 0)) o.counters["probe.large_operand"]++;
     if (rb.sr.clock_reads) o.counters["probe.wall_clock_read"]++;
     Hasher h; h.u64(ra.sr.hist_hash); h.u64(rc.sr.hist_hash); h.u64(rb.sr.hist_hash); A.hash(h); C.hash(h); B.hash(h);
